@@ -1,6 +1,6 @@
 package dragonboat
 
-//vcheck:bounds C11 pool: the real snapshot workerPool (engine.go: workerPoolMain, loadNodes/unloadNodes, schedule, completed, start/setBusy/setIdle, get*Job) with 2 workers and 1-2 shards driven as an event loop: reflect.Select is replaced by a choice (symbolic variable) among the ready channels; before every select the environment takes 0..1 steps out of: a node requests save / recover / stream (node-level protocol: one outstanding request per kind and shard), (a worker picks up the job the pool handed to it right away,) a worker finishes its job and signals completion, NodeHost asks the pool to stop; at most 5 (thorough: 6) environment steps, at most one per pool iteration, and 6 pool iterations before the stop is forced; other engine components hold 0 or 1 further load references on each node
+//vcheck:bounds C11 pool: the real snapshot workerPool (engine.go: workerPoolMain, loadNodes/unloadNodes, schedule, completed, start/setBusy/setIdle, get*Job) with 2 workers and 1-2 shards driven as an event loop: reflect.Select is replaced by a choice (symbolic variable) among the ready channels; before every select the environment takes 0..1 steps out of: a node requests save / recover / stream (node-level protocol: one outstanding request per kind and shard), (a worker picks up the job the pool handed to it right away,) a worker finishes its job and signals completion, NodeHost asks the pool to stop; at most 5 environment steps, at most one (thorough: two) per pool iteration, and 6 pool iterations before the stop is forced; other engine components hold 0 or 1 further load references on each node
 //vcheck:stub C11 pool: worker goroutines = harness model (a job is "inside the user state machine" from pick-up to completion; the real node.save/recover/stream bodies are decided by the C08/C11/C16 node and rsm harnesses); syncutil.Stopper.Stop of the worker stopper = every worker finishes its current job and returns, then the channel closes (what Stop waits for); time.Ticker never fires; managed state machine = load counter (Loaded/Offloaded as rsm.OffloadedStatus); pipeline.setCloseReady = recorder (from that moment the close worker may call Close on the user state machine)
 
 import (
@@ -186,12 +186,7 @@ func (e *vPoolEnv) step() {
 
 var vSSPool *vPoolEnv
 
-func vMaxEnvSteps() int {
-	if vTier() > 0 {
-		return 6
-	}
-	return 5
-}
+func vMaxEnvSteps() int { return 5 }
 
 
 // vStopperStop stands in for syncutil.Stopper.Stop: it returns only after the
@@ -199,6 +194,14 @@ func vMaxEnvSteps() int {
 // stopper that means: every worker has left the state machine (a job already
 // handed over is still executed or dropped - either way nothing runs after).
 func vStopperStop(s *syncutil.Stopper) {
+	if vClosePool != nil && s == vClosePool.p.workerStopper {
+		// timedWait is over: the close workers return (after their current request)
+		for w := range vClosePool.active {
+			if vClosePool.active[w] != nil {
+				vClosePool.finish(w)
+			}
+		}
+	}
 	if vSSPool != nil && s == vSSPool.p.workerStopper {
 		for w := range vSSPool.active {
 			if vSSPool.active[w] != nil {
@@ -269,7 +272,9 @@ func VHarness_C11_SnapshotPool() {
 			}
 			return
 		}
-		if env.steps < vMaxEnvSteps() && vBool("envstep?") {
+		// quick: at most one environment event per pool iteration; thorough: two
+		// (several channels ready at the same select)
+		for round := 0; round <= vTier() && env.steps < vMaxEnvSteps() && vBool("envstep?"); round++ {
 			env.steps++
 			env.step()
 		}
@@ -303,4 +308,183 @@ func VHarness_C11_SnapshotPool() {
 		vReach("stopped-with-work")
 	}
 	vReach("done")
+}
+
+// ---------------------------------------------------------------------------
+// the close worker pool
+
+type vCloseSM struct {
+	vCountSM
+	closes    int
+	inClose   bool
+	destroyed chan struct{}
+}
+
+func (s *vCloseSM) Close() error {
+	s.closes++
+	vAssert(s.closes == 1, "user-state-machine-closed-at-most-once")
+	close(s.destroyed)
+	return nil
+}
+func (s *vCloseSM) DestroyedC() <-chan struct{} { return s.destroyed }
+
+type vCloseEnv struct {
+	p         *closeWorkerPool
+	nodes     []*node
+	sms       []*vCloseSM
+	submitted []bool
+	active    []*closeReq // per worker
+	steps     int
+	selects   int
+	stopped   bool
+}
+
+func (e *vCloseEnv) pickUp(w int) {
+	if e.active[w] != nil {
+		return
+	}
+	select {
+	case r := <-e.p.workers[w].requestC:
+		for o := range e.active {
+			if e.active[o] != nil {
+				vAssert(e.active[o].node != r.node, "one-close-worker-per-node-at-a-time")
+			}
+		}
+		rr := r
+		e.active[w] = &rr
+	default:
+	}
+}
+
+func (e *vCloseEnv) finish(w int) {
+	r := e.active[w]
+	if r == nil {
+		return
+	}
+	// what closeWorker.workerMain does with a request
+	if err := e.p.workers[w].handle(*r); err != nil {
+		panic(err)
+	}
+	e.active[w] = nil
+	e.p.workers[w].completed()
+	vReach("node-closed")
+}
+
+var vClosePool *vCloseEnv
+
+// C11 (close worker pool): every node that became closable before NodeHost
+// stops the pool has its user state machine closed exactly once - never twice,
+// never by two workers at a time - also for the requests still queued when the
+// stop arrives (timedWait drains them).
+//vcheck: reach=node-closed,stop-with-queued-work,done workers=16 replay=symbolic forbid=. steps=2000000
+func VHarness_C11_ClosePool() {
+	nNodes := 2 + vChoose("nodes", 2)
+	env := &vCloseEnv{}
+	for i := 0; i < nNodes; i++ {
+		n := &node{shardID: uint64(10 + i), replicaID: 1, instanceID: uint64(100 + i)}
+		n.sysEvents = newSysEventListener(nil, nil)
+		msm := &vCloseSM{destroyed: make(chan struct{})}
+		n.sm = rsm.NewStateMachine(msm, nil, config.Config{}, n, nil)
+		env.nodes = append(env.nodes, n)
+		env.sms = append(env.sms, msm)
+	}
+	env.submitted = make([]bool, nNodes)
+	nw := 1 + vChoose("workers", 2)
+	p := &closeWorkerPool{
+		workers:       make([]*closeWorker, nw),
+		ready:         make(chan closeReq, 1),
+		busy:          make(map[uint64]uint64, nw),
+		processing:    make(map[uint64]struct{}, nw),
+		pending:       make([]*node, 0),
+		workerStopper: syncutil.NewStopper(),
+		poolStopper:   syncutil.NewStopper(),
+	}
+	for w := 0; w < nw; w++ {
+		p.workers[w] = &closeWorker{workerID: uint64(w), stopper: p.workerStopper, requestC: make(chan closeReq, 1), completedC: make(chan struct{}, 1)}
+	}
+	env.p = p
+	env.active = make([]*closeReq, nw)
+	vClosePool = env
+	vSSPool = nil
+	vSelectHook = func() {
+		env.selects++
+		for w := range p.workers {
+			env.pickUp(w)
+		}
+		for round := 0; round < 2 && env.steps < 6 && env.selects <= 10 && vBool("envstep?"); round++ {
+			env.steps++
+			type act struct{ kind, arg int }
+			var acts []act
+			if !env.stopped && len(p.ready) == 0 {
+				for i := range env.nodes {
+					if !env.submitted[i] {
+						acts = append(acts, act{0, i})
+						break // nodes are interchangeable: the next one not yet submitted
+					}
+				}
+			}
+			for w := range env.active {
+				if env.active[w] != nil {
+					acts = append(acts, act{1, w})
+				}
+			}
+			if !env.stopped {
+				acts = append(acts, act{2, 0})
+			}
+			if len(acts) > 0 {
+				a := acts[vChoose("envstep", len(acts))]
+				switch a.kind {
+				case 0:
+					env.submitted[a.arg] = true
+					p.ready <- closeReq{node: env.nodes[a.arg]}
+				case 1:
+					env.finish(a.arg)
+				case 2:
+					env.stopped = true
+					if len(p.ready) > 0 || len(p.pending) > 0 || len(p.busy) > 0 {
+						vReach("stop-with-queued-work")
+					}
+					p.poolStopper.Close()
+				}
+			}
+		}
+		for w := range p.workers {
+			env.pickUp(w)
+		}
+		// the pool (or timedWait) must not wait for ever: what happens next is a
+		// worker finishing, or the stop
+		ready := (env.stopped && !env.inTimedWait()) || len(p.ready) > 0
+		for w := range p.workers {
+			if len(p.workers[w].completedC) > 0 {
+				ready = true
+			}
+		}
+		if !ready {
+			done := false
+			for w := range env.active {
+				if env.active[w] != nil && !done {
+					env.finish(w)
+					done = true
+				}
+			}
+			if !done && !env.stopped {
+				env.stopped = true
+				p.poolStopper.Close()
+			}
+		}
+	}
+	p.workerPoolMain()
+	for i := range env.nodes {
+		if env.submitted[i] {
+			vAssert(env.sms[i].closes == 1, "every-closable-node-is-closed-before-the-pool-returns")
+		} else {
+			vAssert(env.sms[i].closes == 0, "only-closable-nodes-are-closed")
+		}
+	}
+	vReach("done")
+}
+
+// inTimedWait: after the stop was taken the pool only waits for completions.
+func (e *vCloseEnv) inTimedWait() bool {
+	return vSelectNCases == len(e.p.workers)+1
 }
